@@ -221,9 +221,17 @@ impl DomainName {
     fn deserialise(id: u16, buffer: &mut ConsumableBuffer) -> Result<Self, Error> {
         let mut len = 0;
         let mut labels = Vec::<Label>::with_capacity(5);
-        let start = buffer.position;
+        let mut start = buffer.position;
+
+        // once a compression pointer has been followed the rest of
+        // the name is read from where it points, and the caller's
+        // buffer stays just after the pointer.  This is a loop, not
+        // a recursive call, so that a long chain of pointers cannot
+        // exhaust the stack.
+        let mut pointee: Option<ConsumableBuffer> = None;
 
         'outer: loop {
+            let buffer = pointee.as_mut().unwrap_or(&mut *buffer);
             let size = buffer.next_u8().ok_or(Error::DomainTooShort(id))?;
 
             if usize::from(size) <= LABEL_MAX_LEN {
@@ -260,10 +268,8 @@ impl DomainName {
                     return Err(Error::DomainPointerInvalid(id));
                 }
 
-                let mut other = DomainName::deserialise(id, &mut buffer.at_offset(ptr))?;
-                len += other.len;
-                labels.append(&mut other.labels);
-                break 'outer;
+                start = ptr;
+                pointee = Some(buffer.at_offset(ptr));
             } else {
                 return Err(Error::DomainLabelInvalid(id));
             }
